@@ -140,19 +140,30 @@ def check(prop, tier):
     if wstats['witnesses']:
         instances['W'] = wstats['witnesses']
     new, hit = [], []
+    seen_keys = {}
     for f in findings:
+        if f['key'] in seen_keys:
+            seen_keys[f['key']]['instances'] = seen_keys[f['key']].get('instances', 1) + 1
+            continue
+        seen_keys[f['key']] = f
         if f['key'] in known:
             hit.append(f)
         else:
             new.append(f)
     for f in hit:
-        print(f'KNOWN-FINDING: property={prop} {f["rule"]} {f["decl_key"]} :: {f["what"]}')
+        print(f'KNOWN-FINDING: property={prop} {known[f["key"]].get("summary", f["what"])} [{f["key"]}] ({f.get("instances", 1)} instance(s) in this run)')
     rc = 0
+    shown = 0
     for f in new:
+        rc = 1
+        if shown >= 40:
+            continue
+        shown += 1
         p = write_replay(prop, f)
         print(f'VIOLATION property={prop} replay={p}')
-        print(f'  rule={f["rule"]} decl={f["decl_key"]}\n  {f["what"]}\n  {json.dumps(f["detail"], default=str)[:600]}')
-        rc = 1
+        print(f'  rule={f["rule"]} decl={f["decl_key"]} ({f.get("instances", 1)} instance(s))\n  {f["what"]}\n  {json.dumps(f["detail"], default=str)[:600]}')
+    if len(new) > shown:
+        print(f'... and {len(new) - shown} more violations of {prop} (not listed)')
     ev = {
         'property_id': prop, 'tier': tier, 'seed': seed, 'level': LEVELS.get(prop, 'other'),
         'coverage': {
